@@ -5,7 +5,9 @@
 use proc_macro2::TokenStream;
 use quote::quote;
 
-use super::super::super::conversions::{BinOpEmitKind, ConversionContext, determine_binop_plan, determine_conversion};
+use super::super::super::conversions::{
+    BinOpEmitKind, ConversionContext, NumericConversion, determine_binop_plan, determine_conversion,
+};
 use super::super::super::expr::{BinOp, IrCallArg, IrExprKind, TypedExpr, VarAccess, VarRefKind};
 use super::super::super::types::{IrType, Mutability};
 use super::super::{EmitError, IrEmitter};
@@ -154,8 +156,17 @@ impl<'a> IrEmitter<'a> {
 
         // Determine binop plan (conversions + emit strategy)
         let plan = determine_binop_plan(op, left, right);
+        let lhs_is_cast = !matches!(plan.lhs_conv, NumericConversion::None);
         let l = plan.lhs_conv.apply(l_raw);
         let r = plan.rhs_conv.apply(r_raw);
+        // A promoted left operand is emitted as `(x) as f64`. Rust does not accept a cast directly
+        // followed by a method call (`(x) as f64.powf(..)`) or by `<` (parsed as generic arguments
+        // of `f64`), so group the cast in exactly those positions.
+        let l = if lhs_is_cast && (matches!(plan.emit, BinOpEmitKind::Pow { .. }) || matches!(op, BinOp::Lt)) {
+            quote! { (#l) }
+        } else {
+            l
+        };
 
         match plan.emit {
             BinOpEmitKind::StdlibCall { path } => Ok(quote! { #path(#l, #r) }),
